@@ -293,9 +293,8 @@ def run(run):
         try:
             per_path = section_ecef_to_lla(rep)
             run.witness('ecef_to_lla explored on more than one hemisphere/branch path', len(per_path) >= 2)
-            for obls in per_path:
-                bad = rep.batch(obls, timeout_s=timeout)
-                finish_bad(rep, bad)
+            bad = rep.batch([o for obls in per_path for o in obls], timeout_s=timeout)
+            finish_bad(rep, bad)
             run.cov['ecef_to_lla_paths'] = len(per_path)
         except (RuntimeError, NotImplementedError, S.SymbolicBranch) as e:
             run.error('ecef_to_lla structure sub-claim could not be executed symbolically: %s' % e)
